@@ -71,7 +71,7 @@ pub fn session_init(init: Value, mut script: impl FnMut(&[Value]) -> Option<Valu
             }
         }
     }
-    match s.end(Duration::from_secs(10)) {
+    match s.end(Duration::from_secs(40)) {
         Ok(r) => run.result = Some(r),
         Err(SessErr::Timeout) => run.hang_at = Some(run.obs.len()),
         Err(SessErr::Crashed { status, stderr }) => run.crashed = Some(format!("at teardown {status}: {}", stderr.lines().rev().take(4).collect::<Vec<_>>().join(" | "))),
